@@ -37,6 +37,9 @@ func TestVerifC01Smoke(t *testing.T) {
 	var total time.Duration
 	n := 0
 	for _, nm := range vkNames {
+		if f := os.Getenv("VERIF_SMOKE_NAME"); f != "" && f != nm.Name {
+			continue
+		}
 		for _, qt := range vkTypes {
 			pl.Reset()
 			r := pl.Ask(nm.Name, qt, h_resolver.Flags{DO: true}, "tcp")
